@@ -58,6 +58,7 @@ extern struct v_wrec   v_w[V_NW];
 extern int    v_nw;                       /* number of write records (fprintf / send calls that carried data) */
 extern int    v_fopen_calls, v_fopen_ok, v_fclose_calls;
 extern int    v_fread_calls, v_fread_full, v_no_short_reads;
+extern int    v_fd_flags;                 /* flags of the last open() */
 extern int    v_open_streams;             /* currently open modelled streams */
 extern char   v_last_path[V_PATHCAP];     /* path of the last fopen */
 extern char   v_last_mode[4];
